@@ -1623,3 +1623,118 @@ theorem C06.gate_dot_single_rank {α : Type} [Field α] [DecidableEq α] (p : Fe
     GMeanF.wdot (FeatModel.Dist.freqs p) (!p.nbrs.isEmpty) x y = some (FeatModel.Dist.gdot [p] [x] [y]) := by
   rw [C06.gmean_wdot_is_gate_dot p x y hx hy]
   simp [FeatModel.Dist.gdot]
+
+/-- slip filter and decomposition, quantified over a `Decomp` (blocks = local DOFs of patch `r`): if the local vector
+    of the patch is the restriction of a global block field `Xb` and the normal of every local entry is the global
+    normal `N` of its global DOF, the local result is the restriction of the GLOBALLY slip-filtered field - constrained
+    DOFs carry `slipBlock (Xb g) (N g)`, all others `Xb g`.  The right-hand side mentions the global DOF only, so all
+    copies of a shared DOF agree afterwards on every pair of patches: the result is type-1 without any sync. -/
+theorem C06.global_slip_commutes_decomp {α : Type} [Field α] [DecidableEq α] (d : FeatModel.Dist.Decomp) (r : Nat)
+    (f : SlipF α) (Xb N : Nat → List α) (v w : List α)
+    (hsz : f.size = (d.patch r).n) (hn : (f.es.map Prod.fst).Nodup) (hin : ∀ e ∈ f.es, e.1 < f.size)
+    (hv : ∀ i, i < (d.patch r).n → readBlock f.bs i v = Xb (d.gdof r i))
+    (hN : ∀ e ∈ f.es, SlipF.normal f.bs e = N (d.gdof r e.1))
+    (hrun : f.filter v = some w) :
+    (∀ e ∈ f.es, readBlock f.bs e.1 w = slipBlock (Xb (d.gdof r e.1)) (N (d.gdof r e.1))) ∧
+    (∀ i, i < (d.patch r).n → (∀ e ∈ f.es, e.1 ≠ i) → readBlock f.bs i w = Xb (d.gdof r i)) := by
+  unfold SlipF.filter at hrun
+  split at hrun
+  · rename_i h0
+    simp only [Option.some.injEq] at hrun
+    subst hrun
+    refine ⟨fun e he => ?_, fun i hi _ => hv i hi⟩
+    have := hin e he
+    omega
+  · split at hrun
+    · simp at hrun
+    · rename_i hs
+      have hlen : f.size * f.bs = v.length := by simpa using hs
+      constructor
+      · intro e he
+        have hfit : ∀ b ∈ f.es, f.bs * b.1 + f.bs ≤ v.length := by
+          intro b hb
+          have := Nat.mul_le_mul_left f.bs (Nat.succ_le_of_lt (hin b hb))
+          rw [Nat.mul_succ, Nat.mul_comm f.bs f.size] at this
+          omega
+        rw [run_block_value f.bs f.es v w hrun hn hfit e he, hv e.1 (by rw [← hsz]; exact hin e he), hN e he]
+      · intro i hi hfree
+        rw [run_block_untouched f.bs f.es v w hrun i hfree, hv i hi]
+
+/-- scalar `UnitFilter::filter_offdiag_row_mat` on `SparseMatrixBCSR<1, bw>`: every stored scalar of a constrained
+    block row becomes zero (`v[j] = DT_(0)` clears the whole `1 x bw` block), all other block rows are untouched.
+    (The overload for `SparseMatrixBCSR<bh, 1>` does nothing; the driver prints the matrix unchanged there.) -/
+theorem C06.unit_offdiag_rows_bcsr1 {α : Type} [Zero α] [One α] [Mul α] (f : UnitF α) (A B : FeatModel.LA.Bcsr α)
+    (hwf : A.wf = true) (hes : ∀ e ∈ f.es, e.1 < A.rows) (hrun : f.filterOffdiagRowMatB1 A = some B)
+    (i0 j0 l0 : Nat) (hi0 : i0 < A.rows) (hj0 : A.rowPtr.getD i0 0 ≤ j0 ∧ j0 < A.rowPtr.getD (i0 + 1) 0)
+    (hl0 : l0 < A.bw) (hq : j0 * A.bw + l0 < A.val.size) :
+    ((∃ e ∈ f.es, e.1 = i0) → B.val.getD (j0 * A.bw + l0) 0 = 0) ∧
+    ((∀ e ∈ f.es, e.1 ≠ i0) → B.val.getD (j0 * A.bw + l0) 0 = A.val.getD (j0 * A.bw + l0) 0) := by
+  have W := C02L.Conv.bcsr_wf_of A hwf
+  unfold UnitF.filterOffdiagRowMatB1 at hrun
+  by_cases hemp : f.es.isEmpty
+  · have he : f.es = [] := by simpa using hemp
+    simp only [hemp, if_true, Option.some.injEq] at hrun
+    subst hrun
+    exact ⟨fun ⟨e, he', _⟩ => by rw [he] at he'; simp at he', fun _ => rfl⟩
+  · simp only [hemp, Bool.false_eq_true, if_false] at hrun
+    split at hrun
+    · simp at hrun
+    · simp only [Option.some.injEq] at hrun
+      rw [← hrun]
+      exact getD_offdiagB1 W f.es hes i0 j0 l0 hi0 hj0 hl0 A.val hq
+
+/-! ## dense meaning (`Bcsr.entry`) of the blocked `filter_mat` -/
+
+/-- scalar row `i` (block row `i / bh`, component `i % bh`, not an ignored NaN) of a constrained block row whose
+    diagonal block is stored exactly once becomes the unit row of the DENSE matrix: `entry i j = 1` exactly for the
+    column `j` of the diagonal block with `j % bw = i % bh`, `0` elsewhere (so for `bh > bw` the rows with
+    `i % bh ≥ bw` are zero rows; for `bh = bw` it is `e_i`) -/
+theorem C06.unitB_mat_rows_dense {α : Type} [CommSemiring α] (f : UnitBF α) (A B : FeatModel.LA.Bcsr α)
+    (hwf : A.wf = true) (hn : (f.es.map Prod.fst).Nodup) (hes : ∀ e ∈ f.es, e.1 < A.rows)
+    (hrun : f.filterMat A = some B) (hbh : 0 < A.bh) (hbw : 0 < A.bw)
+    (e0 : Nat × List α) (he0 : e0 ∈ f.es) (i j : Nat) (hrow : i / A.bh = e0.1)
+    (hs : f.skip (e0.2.getD (i % A.bh) 0) = false)
+    (k0 : Nat) (hk0 : A.rowPtr.getD e0.1 0 ≤ k0 ∧ k0 < A.rowPtr.getD (e0.1 + 1) 0)
+    (hc0 : A.colInd.getD k0 0 = e0.1)
+    (huniq : ∀ k, A.rowPtr.getD e0.1 0 ≤ k → k < A.rowPtr.getD (e0.1 + 1) 0 → A.colInd.getD k 0 = e0.1 → k = k0) :
+    B.entry i j = if j / A.bw = e0.1 ∧ j % A.bw = i % A.bh then 1 else 0 := by
+  have W := C02L.Conv.bcsr_wf_of A hwf
+  have hB : B.bh = A.bh ∧ B.bw = A.bw ∧ B.rowPtr = A.rowPtr ∧ B.colInd = A.colInd ∧ B.cols = A.cols := by
+    unfold UnitBF.filterMat at hrun
+    split at hrun
+    · simp only [Option.some.injEq] at hrun; subst hrun; exact ⟨rfl, rfl, rfl, rfl, rfl⟩
+    · split at hrun
+      · simp at hrun
+      · simp only [Option.some.injEq] at hrun; subst hrun; exact ⟨rfl, rfl, rfl, rfl, rfl⟩
+  obtain ⟨b1, b2, b3, b4, b5⟩ := hB
+  unfold FeatModel.LA.Bcsr.entry
+  rw [b1, b2, b3, b4, b5]
+  have hne : ¬ (A.bh = 0 ∨ A.bw = 0) := by omega
+  simp only [hne, if_false]
+  rw [FeatModel.LA.foldRange_add_if, zero_add, hrow]
+  have hh : i % A.bh < A.bh := Nat.mod_lt _ hbh
+  have hl : j % A.bw < A.bw := Nat.mod_lt _ hbw
+  have hterm : ∀ k ∈ Finset.Ico (A.rowPtr.getD e0.1 0) (A.rowPtr.getD (e0.1 + 1) 0),
+      (if A.colInd.getD k A.cols = j / A.bw then B.val.getD (k * A.bh * A.bw + i % A.bh * A.bw + j % A.bw) 0 else 0) =
+      (if A.colInd.getD k 0 = j / A.bw then
+        (if A.colInd.getD k 0 = e0.1 then (if i % A.bh = j % A.bw then (1 : α) else 0) else 0) else 0) := by
+    intro k hk
+    rw [Finset.mem_Ico] at hk
+    have hkc : k < A.colInd.size := Nat.lt_of_lt_of_le hk.2 (C02L.Conv.bcsr_rowEnd_le W (hes e0 he0))
+    have hcol : A.colInd.getD k A.cols = A.colInd.getD k 0 := by simp [Array.getD, hkc]
+    have hpod : k * A.bh * A.bw + i % A.bh * A.bw + j % A.bw = UnitBF.pod A k (i % A.bh) (j % A.bw) := by
+      unfold UnitBF.pod; ring
+    rw [hcol, hpod, C06.unitB_mat_rows f A B hwf hn hes hrun e0 he0 k (i % A.bh) (j % A.bw) hk hh hl, hs]
+    simp only [Bool.false_eq_true, if_false]
+    by_cases h1 : A.colInd.getD k 0 = e0.1 <;> by_cases h2 : i % A.bh = j % A.bw <;> simp [h1, h2]
+  rw [Finset.sum_congr rfl hterm]
+  by_cases hP : i % A.bh = j % A.bw
+  · simp only [hP, if_true]
+    rw [sum_unit_row _ _ (fun k => A.colInd.getD k 0) e0.1 (j / A.bw) k0 hk0 hc0 huniq]
+    by_cases hJ : j / A.bw = e0.1 <;> simp [hJ]
+  · simp only [hP, if_false]
+    have : ¬ (j / A.bw = e0.1 ∧ j % A.bw = i % A.bh) := fun hh' => hP hh'.2.symm
+    rw [if_neg this]
+    apply Finset.sum_eq_zero
+    intro k _
+    by_cases h1 : A.colInd.getD k 0 = j / A.bw <;> simp [h1]
